@@ -1,11 +1,13 @@
 """Imported by the template worker *before* dateparser: locks the library creates
 while it is being imported become scheduler-aware SimLocks, which behave exactly
-like real locks whenever no simulation is running.  (Locks the library creates
-later, at call time, are covered by patching again around each schedule.)"""
+like real locks whenever no simulation is running.  (The patch stays
+installed for the life of the template and of every leaf forked from it.)"""
 from simkit import simsched
 
 simsched.patch_locks()
 
 
 def after_import():
-    simsched.unpatch_locks()
+    # the patch stays on in the template: a lock the library creates in an at-fork handler (every leaf
+    # is a forked child of the template) or at call time must be scheduler-aware as well
+    pass
